@@ -27,10 +27,19 @@ def expReqs (f : Fmt) : Hdrs → List Item → List Req
   | h, .frame _ _ :: r => expReqs f h r
 
 /-- raw: the frames with their tags, in file order -/
-def expFrames : List Item → List (Bytes × Bytes)
+def expFrames : List Item → List RawAmmo
   | [] => []
-  | .frame t fr :: r => (fr, t) :: expFrames r
+  | .frame t fr :: r => { frame := fr, tag := t } :: expFrames r
   | _ :: r => expFrames r
+
+/-- the same pass at the level of decoded ammo (before `BuildRequest`): needs no knowledge of `net/url` -/
+def expAmmo (f : Fmt) : Hdrs → List Item → List Ammo
+  | _, [] => []
+  | h, .hdr k v :: r => expAmmo f (hset h k v) r
+  | h, .req u t b :: r =>
+    { method := if f = .uripost then postBytes else getBytes, url := u
+      body := if f = .uripost then b else [], tag := t, hdrs := h } :: expAmmo f h r
+  | h, .frame _ _ :: r => expAmmo f h r
 
 /-- all request targets of the entries are in the class where the model knows `net/url` -/
 def targetsKnown (items : List Item) : Bool :=
@@ -58,6 +67,18 @@ def reqCore (r : Req) : String :=
 
 def reqStr (r : Req) : String := reqCore r ++ ",t=" ++ hex r.tag
 
+def stopName : Stop → String
+  | .eof => "ok"
+  | .err e => e.name
+
+/-- the observation (error class, request texts) of what a decoder model delivered;
+`none` when some URL is outside the class where the model knows `net/url` -/
+def modelObs (res : List Ammo × Stop) : Option (String × List String) :=
+  (allSome (res.1.map buildReq)).map fun reqs => (stopName res.2, reqs.map reqStr)
+
+def obsLine (err : String) (reqs : List String) : String :=
+  "err=" ++ err ++ " n=" ++ toString reqs.length ++ " reqs=" ++ ";".intercalate reqs
+
 /-! ### verdict on an observation -/
 
 def fieldNames : List String := ["m", "u", "h", "hd", "b", "t"]
@@ -70,18 +91,34 @@ def firstDiffField (a b : String) : String :=
     | _, _, _ => "shape"
   go fa fb fieldNames
 
+/-- first difference between the expected and the delivered sequence -/
+inductive Diff where
+  | same
+  | short (i : Nat) (next : String)          -- delivery stopped after i requests
+  | extra (i : Nat) (x : String)             -- more than expected
+  | skipped (i : Nat)                        -- position i holds the entry expected at i+1
+  | repeated (i : Nat)                       -- position i repeats position i-1
+  | changed (i : Nat) (e x : String)
+
+def diff : Nat → List String → List String → Option String → Diff
+  | _, [], [], _ => .same
+  | i, e :: _, [], _ => .short i e
+  | i, [], x :: _, _ => .extra i x
+  | i, e :: es, x :: xs, prev =>
+    if e == x then diff (i + 1) es xs (some x)
+    else if es.head? == some x then .skipped i
+    else if prev == some x then .repeated i
+    else .changed i e x
+
 /-- compares the delivered requests with the expected ones; "ok" or "fail:<key>:<detail>".
 keys: `dropped` (an entry is missing / fewer delivered), `duplicated`, `extra`, `changed-<field>`, `error`. -/
 def judge (exp : List String) (expErr : String) (impl : List String) (implErr : String) : String :=
-  let rec go (i : Nat) : List String → List String → Option String → String
-    | [], [], _ => if implErr == expErr then "ok" else s!"fail:error:err={implErr} want {expErr}"
-    | e :: _, [], _ => s!"fail:dropped:delivered {i} of {i + 1 + (exp.length - i - 1)} err={implErr} next-expected {e.take 60}"
-    | [], x :: _, _ => s!"fail:extra:request {i} beyond the limit {x.take 60}"
-    | e :: es, x :: xs, prev =>
-      if e == x then go (i + 1) es xs (some x)
-      else if es.head? == some x then s!"fail:dropped:entry at position {i} skipped, got the next one"
-      else if prev == some x then s!"fail:duplicated:position {i} repeats the previous request"
-      else s!"fail:changed-{firstDiffField e x}:position {i} want {e.take 80} got {x.take 80}"
-  go 0 exp impl none
+  match diff 0 exp impl none with
+  | .same => if implErr == expErr then "ok" else s!"fail:error:err={implErr} want {expErr}"
+  | .short i e => s!"fail:dropped:delivered {i} of {exp.length} err={implErr} next-expected {e.take 60}"
+  | .extra i x => s!"fail:extra:request {i} beyond the limit {x.take 60}"
+  | .skipped i => s!"fail:dropped:entry at position {i} skipped, got the next one"
+  | .repeated i => s!"fail:duplicated:position {i} repeats the previous request"
+  | .changed i e x => s!"fail:changed-{firstDiffField e x}:position {i} want {e.take 80} got {x.take 80}"
 
 end Pandora.Spec.C07
